@@ -580,6 +580,20 @@ class Engine:
         if 'SizedTypeProperties>::SIZE' in t:
             # only ever compared with zero (containers are modelled abstractly): the types stored here are not zero-sized
             return mk_int(8, 'usize')
+        m = re.match(r'^\{(alloc\d+): &', t)
+        if m and self.prog is not None:
+            am = self.prog.by_name.get('@alloc:' + m.group(1))
+            if am is not None:
+                sname = am.literal[len('static:'):]
+                sf = self.prog.by_name.get(sname)
+                if sf is None:
+                    cands = [f for f in self.prog.fns if f.kind == 'const' and f.name.split('::')[-1] == sname.split('::')[-1] and f.blocks]
+                    sf = cands[0] if len(cands) == 1 else None
+                if sf is not None and sf.blocks:
+                    key = ('staticitem', sf.name)
+                    if key not in self.uni.memo:
+                        self.uni.memo[key] = Ref(PCont([self._exec(sf, [])]), 0)
+                    return self.uni.memo[key]
         if t.startswith('{alloc') or t.startswith('tracing::') or 'CALLSITE' in t:
             return Opaque('static', t)
         segs_ = strip_generics(t.replace('ZeroSized: ', '')).split('::')
@@ -1030,6 +1044,12 @@ class Engine:
             return target(self, callee, args)
         if kind == 'mir':
             return self.call_mir(target, args)
+        # an enum variant / tuple struct used as a function (`Pattern::Equal as fn(i64) -> Pattern`)
+        segs = strip_generics(callee).split('::')
+        if len(segs) >= 2 and self.prog is not None:
+            vs = self.prog.enum_variants('::'.join(segs[:-1]))
+            if vs is not None and segs[-1] in vs:
+                return Adt(segs[-2], vs.index(segs[-1]), segs[-1], list(args))
         raise Unsupported('no model for callee %s (called from %s)' % (callee, fr.fn.name if fr else '?'))
 
     def _lookup_callee(self, callee):
@@ -1071,6 +1091,9 @@ class Engine:
             return self.call_closure(clo.get(), args)
         if isinstance(clo, Opaque) and clo.kind == 'fnitem':
             return self.call(clo.data, list(args))
+        if isinstance(clo, Adt) and not clo.items and clo.variant is not None:
+            # a tuple variant used as a function value (`Pattern::Equal as fn(i64) -> Pattern`)
+            return Adt(clo.name, clo.variant, clo.vname, list(args))
         raise Unsupported('call of %r' % (clo,))
 
     def closure_fn(self, text):
